@@ -140,7 +140,7 @@ func c05Engine() *Engine {
 		w := schedWorkload(seed, tier, 45)
 		w.Node.WALRotateInterval = 1 + r.Intn(3)
 		c := schedCfg{writers: 1 + r.Intn(3), readers: 0, opsPerClient: 3 + r.Intn(6),
-			think: []time.Duration{400 * time.Millisecond, 3 * time.Second, 3 * time.Minute, 6 * time.Minute}[r.Intn(4)],
+			think:    []time.Duration{400 * time.Millisecond, 3 * time.Second, 3 * time.Minute, 6 * time.Minute}[r.Intn(4)],
 			shutdown: r.Pct(30), tail: []time.Duration{time.Second, 6 * time.Minute, 16 * time.Minute}[r.Intn(3)]}
 		if tier == "thorough" {
 			c.opsPerClient += 8
